@@ -13,7 +13,7 @@
 from __future__ import annotations
 
 import ast
-from typing import Any, List, Optional, Set
+from typing import Dict,  Any, List, Optional, Set
 
 from engine.effects import borrowed_names, mutations
 from engine.fold import Folder
@@ -229,15 +229,28 @@ def run(ctx: Any, prog: Program) -> None:
     ctx.check('C17.N3', rot_line is not None and add_line is not None and rot_line < add_line, mt, vl, 'Vec.localise must rotate first and then add the origin', text='Vec.localise order')
     sl = vm.func('Side.localise')
     src = ast.unparse(sl)
-    checks = [('planes', 'p.localise(origin, orient)' in src), ('uaxis', 'self.uaxis = self.uaxis.localise(origin, orient)' in src),
-              ('vaxis', 'self.vaxis = self.vaxis.localise(origin, orient)' in src), ('disp_pos', 'self.disp_pos.localise(origin, orient)' in src),
-              ('vertex offset', 'vert.offset @= orient' in src), ('vertex normal', 'vert.normal @= orient' in src), ('vertex offset_norm', 'vert.offset_norm @= orient' in src)]
-    for nm, okc in checks:
-        ctx.check('C17.N3', okc, vm, sl, f'Side.localise must transform {nm} ' + ('by rotation only' if nm.startswith('vertex') else 'with rotation and translation'), text=f'Side.localise {nm}')
+    # what happens to each transformed member: (attribute, operation)
+    ops: Dict[str, Set[str]] = {}
+    for n in ast.walk(sl):
+        if isinstance(n, ast.Call) and isinstance(n.func, ast.Attribute) and n.func.attr == 'localise':
+            tgt = n.func.value
+            nm = tgt.attr if isinstance(tgt, ast.Attribute) else ('planes' if isinstance(tgt, ast.Name) else ast.unparse(tgt))
+            ops.setdefault(nm, set()).add('localise(' + ', '.join(dotted(a) or '?' for a in n.args) + ')')
+        if isinstance(n, ast.AugAssign) and isinstance(n.target, ast.Attribute):
+            ops.setdefault(n.target.attr, set()).add({ast.MatMult: '@=', ast.Add: '+=', ast.Sub: '-='}.get(type(n.op), '?=') + ' ' + (dotted(n.value) or '?'))
+    expect = {'planes': 'localise(origin, orient)', 'uaxis': 'localise(origin, orient)', 'vaxis': 'localise(origin, orient)', 'disp_pos': 'localise(origin, orient)',
+              'offset': '@= orient', 'normal': '@= orient', 'offset_norm': '@= orient'}
+    for nm, want in expect.items():
+        got = ops.get(nm, set())
+        kind = 'by rotation only (it is a direction)' if want.startswith('@=') else 'with rotation and translation'
+        if not got:
+            ctx.shape('C17.N3', False, vm, sl, f'no transformation of {nm} found in Side.localise', text=f'Side.localise {nm}')
+        else:
+            ctx.check('C17.N3', got == {want}, vm, sl, f'Side.localise applies {sorted(got)} to {nm}; it must be transformed {kind}: `{want}`', text=f'Side.localise {nm}')
     ul = vm.func('UVAxis.localise')
     src = ast.unparse(ul)
     ok = 'vec = self.vec() @ angles' in src and 'self.offset - vec.dot(origin) / self.scale' in src.replace('(', '(').replace('  ', ' ')
-    ctx.check('C17.N3', ok, vm, ul, 'UVAxis.localise must rotate the axis and shift the offset by -(axis . origin) / scale (texture lock)', text='UVAxis.localise')
+    ctx.shape('C17.N3', ok, vm, ul, 'UVAxis.localise must rotate the axis and shift the offset by -(axis . origin) / scale (texture lock)', text='UVAxis.localise')
     so = vm.func('Solid.localise')
     ok = any(isinstance(c, ast.Call) and isinstance(c.func, ast.Attribute) and c.func.attr == 'localise' and [dotted(a) for a in c.args] == ['origin', 'angles'] for c in walk_no_nested(so))
     ctx.check('C17.N3', ok, vm, so, 'Solid.localise must localise every side with the same origin and orientation', text='Solid.localise')
@@ -254,10 +267,17 @@ def run(ctx: Any, prog: Program) -> None:
     for m in sorted(members):
         ctx.check('C17.N4', m in handled, ins, fn, f'fixup_name has no branch for FixupStyle.{m}', text=f'FixupStyle.{m} handled')
     first = [s for s in fn.body if not (isinstance(s, ast.Expr) and isinstance(s.value, ast.Constant))][0]
-    ok = isinstance(first, ast.If) and "startswith(('@', '!'))" in ast.unparse(first.test) and 'not name' in ast.unparse(first.test) \
-        and isinstance(first.body[0], ast.Return) and dotted(first.body[0].value) == 'name'
-    ctx.check('C17.N4', ok, ins, first, "fixup_name must return empty, '@' and '!' names unchanged before applying a style", text='global names untouched')
-
+    guards = [st for st in fn.body if isinstance(st, ast.If) and isinstance(st.body[0], ast.Return) and dotted(st.body[0].value) == 'name']
+    prefixes: Set[str] = set()
+    for g in guards:
+        for c in ast.walk(g.test):
+            if isinstance(c, ast.Call) and isinstance(c.func, ast.Attribute) and c.func.attr == 'startswith' and c.args:
+                a = c.args[0]
+                prefixes |= {e.value for e in (a.elts if isinstance(a, ast.Tuple) else [a]) if isinstance(e, ast.Constant)}
+    if not guards:
+        ctx.check('C17.N4', False, ins, fn, "fixup_name has no early return for names that must stay unchanged ('@' and '!' names are global)", text='global names untouched')
+    else:
+        ctx.check('C17.N4', {'@', '!'} <= prefixes, ins, guards[0], f"fixup_name returns names unchanged only for the prefixes {sorted(prefixes)}: both '@' (global) and '!' (special target) names must be left alone", text='global names untouched')
 
 def root(node: ast.AST) -> Optional[str]:
     while isinstance(node, (ast.Attribute, ast.Subscript)):
@@ -311,7 +331,7 @@ def n6_substitute(ctx: Any, vm: Any) -> None:
         walk(tree)
         ctx.check('C17.N6', not empty_branch, vm, comp[0], f'{label}: the variable pattern is `{pattern}`: its empty alternative matches first, so `$name` is replaced by the default followed by `name` '
                   '(an instance collapsed without fixups keeps the variable names as text)', func='EntityFixup.substitute', text=f'variable pattern {label}')
-    ctx.check('C17.N6', 'key=len, reverse=True' in src, vm, fn, 'longer variable names must be tried first (val$varval style references have no delimiter)', func='EntityFixup.substitute', text='longest variable first')
+    ctx.shape('C17.N6', 'key=len, reverse=True' in src, vm, fn, 'longer variable names must be tried first (val$varval style references have no delimiter)', func='EntityFixup.substitute', text='longest variable first')
 
 
 MUTANTS = [
